@@ -20,6 +20,7 @@ from .values import (
     JSTypedArray,
     JSArrayBuffer,
     JS_WHITESPACE,
+    from_python,
     to_boolean,
     to_number,
     to_integer,
@@ -2376,7 +2377,7 @@ class VM:
         elif callable(callee):
             # Native function
             result = callee(*args)
-            self.stack.append(result if result is not None else UNDEFINED)
+            self.stack.append(from_python(result))
         else:
             raise JSTypeError(f"{callee} is not a function")
 
@@ -2391,10 +2392,10 @@ class VM:
         elif isinstance(method, JSBoundMethod):
             # JSBoundMethod expects this_val as first argument
             result = method(this_val, *args)
-            self.stack.append(result if result is not None else UNDEFINED)
+            self.stack.append(from_python(result))
         elif callable(method):
             result = method(*args)
-            self.stack.append(result if result is not None else UNDEFINED)
+            self.stack.append(from_python(result))
         else:
             raise JSTypeError(f"{method} is not a function")
 
@@ -2410,7 +2411,7 @@ class VM:
                 self.native_depth -= 1
         elif callable(callback):
             result = callback(*args)
-            return result if result is not None else UNDEFINED
+            return from_python(result)
         else:
             raise JSTypeError(f"{callback} is not a function")
 
